@@ -627,6 +627,10 @@ def _refdom_class(c, depth=0):
         if not c.bases:
             raise AnalysisError(f"{c.name}: no base class")
         return _refdom_class(c.bases[-1], depth + 1)
+    if f.endswith(".init_refdom"):
+        named = [x for x in c.mro() if x.name == f[:-len(".init_refdom")]]
+        if named and named[0] is not c:
+            return _refdom_class(named[0], depth + 1)
     raise AnalysisError(f"{fn.short()}: returns {f}(...)")
 
 
@@ -677,6 +681,48 @@ def _auxiliary_meshes(model, rep):
                      f"of the class", c.node.lineno)
         else:
             rep.ok(R1, cons, f"reference mesh is a {r.name}, which refines")
+    # the reference mesh is built from the vertices of the reference cell
+    # (cls(refdom.p, refdom.t)): for a class whose element also has edge /
+    # facet / interior nodes that object holds too few points, and refining
+    # it (refinterp, _splitref, plot3) raises IndexError - such classes must
+    # hand out the reference mesh of their first-order base
+    def rich(c):
+        ea = c.find_attr("elem")
+        if ea is None:
+            return False
+        ecl = [x for x in model.all_classes() if x.name == src(ea[1])
+               and x.path.startswith("skfem/element/")]
+        if not ecl:
+            return False
+
+        def count(attr):
+            a = ecl[0].find_attr(attr)
+            return int(a[1].value) if a and isinstance(
+                a[1], ast.Constant) and isinstance(a[1].value, int) else 0
+        return any(count(k) > 0 for k in ("edge_dofs", "facet_dofs",
+                                          "interior_dofs"))
+    nrich = 0
+    for c in concrete:
+        if not rich(c) or c in refusing:
+            continue
+        nrich += 1
+        r = _refdom_class(c)
+        cons = f"{c.name}.init_refdom:vertex-only-points"
+        if rich(r):
+            rep.fail(R1, c.path, f"{c.name}.init_refdom", cons,
+                     f"{c.name}.init_refdom() builds a {r.name} from the "
+                     f"vertices of the reference cell only, although its "
+                     f"element has edge / facet / interior nodes: "
+                     f"{', '.join(f.short() for f, *_ in sites)} refine that "
+                     f"object and raise IndexError for every mesh of the "
+                     f"class (the two-dimensional second-order classes "
+                     f"return the first-order reference mesh)",
+                     c.node.lineno)
+        else:
+            rep.ok(R1, cons, f"reference mesh is a {r.name} (vertex nodes "
+                   f"only)")
+    if nrich < 4:
+        raise AnalysisError(f"only {nrich} second-order mesh classes found")
     for fn, node, var, clsvar in sites:
         # the class the auxiliary mesh is built with
         names = {}
@@ -1354,6 +1400,11 @@ _LI = "skfem/mesh/mesh_line_1.py"
 _ME = "skfem/mesh/mesh.py"
 _T2 = "skfem/mesh/mesh_tet_2.py"
 MUTANTS = [
+    ("second-order tetrahedra inherit the vertex-only reference mesh",
+     ("skfem/mesh/mesh_tet_2.py",
+      "    @classmethod\n    def init_refdom(cls):\n        # the reference "
+      "cell has no mid-side nodes: the first-order mesh\n        return "
+      "MeshTet1.init_refdom()\n\n", ""), "C12-R1"),
     ("periodic classes hand out a reference mesh of their own class again",
      ("skfem/mesh/mesh_dg.py",
       "        return cls.__bases__[-1].init_refdom()\n",
